@@ -82,7 +82,9 @@ ISuppEdge(old, nonce, s) == \E g \in DOMAIN old.outr : old.outr[g].nonce # nonce
 Hop1(hop) == IF hop > 0 THEN hop - 1 ELSE hop
 
 \* i : record of inputs [f, n, cbp, mbf, nonce, life, hop, hints, nh, dtok, dnl]
-\* o : record of observables [S, csn, ex]
+\* o : record of observables [S, csn, hit, ex, dins]
+\*     hit = the cache answered (the in-record of f was consumed); csn = name of the Data actually emitted,
+\*     NoName when the answer could not be delivered (scope) or there was no answer
 RecvInterest(i, o) ==
   LET f == i.f  n == i.n
       key  == KeyOf(n, i.cbp, i.mbf, i.hints)
@@ -92,7 +94,7 @@ RecvInterest(i, o) ==
       inr1 == Ext(old.inr, f, [nonce |-> i.nonce, exp |-> now + i.life,
                                toks |-> IF pend THEN Append(old.inr[f].toks, i.dtok) ELSE <<i.dtok>>])
       e1   == [old EXCEPT !.inr = inr1]
-      hit  == ~pend /\ csServe /\ o.csn # NoName
+      hit  == ~pend /\ csServe /\ o.hit
       viaFib == i.nh = -1
   IN
   /\ ev' = [kind |-> "I", i |-> i, o |-> o]
@@ -125,9 +127,11 @@ IStage(i) ==   \* "early" | "dup" | "cs?" (cache consulted) | "fwd" (cache not c
      ELSE IF i.f \notin DOMAIN old.inr /\ csServe THEN "cs?" ELSE "fwd"
 
 RI_C07(i, o) ==
-  IF IStage(i) # "cs?" THEN o.csn = NoName
-  ELSE /\ (o.csn # NoName => o.csn \in CsCand(i.n, i.cbp, i.mbf))
-       /\ (CsMust(i.n, i.cbp, i.mbf) => o.csn # NoName)
+  IF IStage(i) # "cs?" THEN o.csn = NoName /\ ~o.hit
+  ELSE /\ (o.csn # NoName => (o.hit /\ o.csn \in CsCand(i.n, i.cbp, i.mbf)))
+       \* an answer that is found but not emitted is one the scope rule forbids on the requesting face
+       /\ ((o.hit /\ o.csn = NoName) => \E nm \in CsCand(i.n, i.cbp, i.mbf) : ~ScopeOk(i.f, nm))
+       /\ (CsMust(i.n, i.cbp, i.mbf) => o.hit)
 
 RI_C02(i, o) ==
   LET key == KeyOf(i.n, i.cbp, i.mbf, i.hints)
@@ -141,7 +145,7 @@ RI_C02(i, o) ==
       strict == { g \in loose : g \notin DOMAIN old.inr \/ g = i.f }
       cheapest(U) == IF U = {} THEN {} ELSE { g \in U : nh[g] = MinS({ nh[x] : x \in U }) }
       stage == IStage(i)
-  IN IF stage \in {"early", "dup"} \/ o.csn # NoName THEN o.S = {}
+  IN IF stage \in {"early", "dup"} \/ o.hit THEN o.S = {}
      ELSE IF i.nh # -1 THEN o.S \subseteq {i.nh} /\ (i.nh \in up /\ ScopeOk(i.nh, i.n) => o.S = {i.nh}) /\ (i.nh \notin up => o.S = {})
      ELSE /\ o.S \subseteq loose
           /\ ISupp(old, i.nonce, StrategyOf(i.n)) => o.S = {}
@@ -159,7 +163,7 @@ RI_C08(i, o) ==   \* the touched entry must be (re)scheduled sensibly
       stage == IStage(i)
       inrA == Ext(old.inr, i.f, [nonce |-> i.nonce, exp |-> now + i.life, toks |-> <<>>])
   IN IF stage \in {"early", "dup"} THEN TRUE
-     ELSE IF o.csn # NoName
+     ELSE IF o.hit
           THEN o.ex # -1 /\ o.ex >= now /\ o.ex <= LatestExp([old EXCEPT !.inr = Drop(inrA, {i.f})])
           ELSE o.ex # -1 /\ o.ex >= now /\ o.ex <= LatestExp([old EXCEPT !.inr = inrA])
                          /\ o.ex >= now + i.life
